@@ -106,6 +106,16 @@ CLAIMED = {
         "design_ref": "DESIGN.md §8 C15",
         "technique": "Lean 4 theorems over a fault-schedule model and an interleaving model + in-process fault-injection correspondence + real-fault subprocess differential + strace",
     },
+    "C01": {
+        "text": "Proof (Lean 4): Spec/Reach.lean lists, one constructor per syntactic position and without reference to the analyzer, every evaluation step bash performs (command words and redirect targets, lists, pipelines, "
+        "if/while/until/for/select/case incl. patterns, functions, subshells, groups, time, !, coproc, [[ ]] operands, (( )), command/process substitutions, ${..} names with subscripts and arguments, $((..)), $[..], array elements, "
+        "unquoted here-document bodies, for((..)) headers). Theorems: every such step stays inside the flattened atoms (child_atoms/reach_atoms, ~70 cases); if a tree is approved every reachable command node is approved on its own "
+        "(no_hidden_execution), every substitution the scanner finds in a reachable raw text is reliably delimited and approved (text_substitutions_allowed), and by induction on fuel the same holds for command strings to any depth "
+        "of re-parsed text (no_hidden_execution_deep). T0 obligations: every Parable node kind is dispatched, sub-syntax or asked about. Not proved: that Parable's AST and the scanner's reading of raw text agree with bash - that half "
+        "is validated by executing every approved generated program under real bash 5.2 in a jail of logging stubs (also the failing-input search).",
+        "design_ref": "DESIGN.md §8 C01",
+        "technique": "Lean 4 theorems (independent Reach spec vs flattened atoms, induction on fuel) + T0 kind obligations + T1 correspondence on ASTs + real-bash jail execution (T2)",
+    },
 }
 
 PENDING_REASON = "check not built yet in this round (DESIGN.md §10 build order); no technique other than Lean proof + correspondence is substituted"
